@@ -62,7 +62,7 @@ RawSlice(T, a, b) == CJSeq(SubSeq(T.raw, a, b))
 RECURSIVE SetAsSeq(_)
 SetAsSeq(S) == IF S = {} THEN <<>> ELSE LET x == CHOOSE y \in S : TRUE IN <<x>> \o SetAsSeq(S \ {x})
 
-MaxFails == 6
+MaxFails == 12
 NoteNames == {"untrimmed_skipped", "untrimmed_compared", "def", "reads", "work", "purge_exact",
               "reindex", "recalc_same", "noninterference", "args"}
 \* TRACE_DEBUG=1 lists unchecked comparisons among the failures (diagnosis only)
@@ -133,8 +133,11 @@ KVSeqSame(a, b) ==
 SeriesCheck(s, mid, post, i) ==
   LET o == StoredAt(post[i], s)
       m == StoredAt(mid[i], s)
+      had == IF s.top THEN KVHas(mid[i].ind, s.name) ELSE KVHas(mid[i].sub, s.name)
   IN IF m.t # "n"
      THEN IF SameV(o, m) THEN "ok" ELSE "repaint"
+     \* a reading that was already stored as None (computed, nothing to show) stays None
+     ELSE IF had /\ o.t # "n" THEN "repaint_none"
      ELSE LET r == MatchAny(o, F(s, post, i), s.rv, s.sl)
           IN IF r = "bad" THEN "value"
              ELSE IF r = "unchecked" THEN "unchecked"
@@ -430,7 +433,9 @@ Step ==
          e    == T.ev[l]
          post == [j \in 1..Len(T.mg) |-> ApplyDelta(st[j], e.m[j])]
          fs   == StepFindings(T, e, post)
-         bad  == {f \in fs : f[1] \notin (IF DebugUnch THEN {"ok"} ELSE {"ok", "unchecked"})}
+         \* a scenario family may mute clauses that say nothing about it (T.mute)
+         bad  == {f \in fs : f[1] \notin (IF DebugUnch THEN {"ok"} ELSE {"ok", "unchecked"})
+                              /\ f[1] \notin {T.mute[q] : q \in 1..Len(T.mute)}}
          bseq == SetAsSeq(bad)
      IN /\ fails' = IF Len(fails) >= MaxFails THEN fails
                     ELSE fails \o [q \in 1..MinI(Len(bseq), MaxFails - Len(fails)) |-> <<l>> \o bseq[q]]
